@@ -73,6 +73,13 @@ def run_update_case(rep, sess, c: Case, seed, tier):
         i = mod_index(k)
         b, a = np.asarray(before[k], dtype=object), np.asarray(after[k], dtype=object)
         if i in c.trained:
+            if "action_scale" in k or "action_bias" in k:
+                # the squashing constants of a tanh policy head encode the action box (C10): they belong to the trained
+                # module but are not learnable, no update routine may move them
+                def box_const(ins, outs, k=k):
+                    return S.close(S.SA(dict(leaves(outs[0]))[k]), S.SA(dict(leaves(ins[0]))[k]))
+                e.obligation(f"{names[i]}{k[k.index(']') + 1:]}:action-box-constants-unchanged", box_const, site=f"{c.site}:action-box-constants-of-the-policy-head-are-not-trained")
+                continue
             n_tr += 1
             if any(not V.s_eq_struct(x, y) for x, y in zip(b.reshape(-1), a.reshape(-1))):
                 changed_trained = True
